@@ -373,7 +373,7 @@ PROPS["C04"] = dict(
     level="exploration",
     quick=dict(cases=90, shards=8, max_size=100, timeout=1700),
     thorough=dict(cases=300, shards=16, max_size=100, timeout=3400),
-    confirm_replays=1,
+    confirm_replays=3,
     rule="case = shutdown scenario run in a child process: subject (Logger singleton / heap Logger / bare OwnThreadHandler<Pipeline>) x configuration (fluent handler+moveToOwnThread / "
     "one-line configure(path), async by default) x QCoreApplication (none / on main's stack / leaked on the heap) x an event loop that has or has not run (and re-entering async mode afterwards) x stop path "
     "(explicit resetOwnThread, destruction of the handler, exec()+quit() i.e. aboutToQuit, return from main without exec() so the singleton dies after QCoreApplication, exit() with a live application) x "
